@@ -415,6 +415,111 @@ def query_round(mode, D, h, case, res, reg, truth=None, every_rank=False, extra_
     return bad, left_only
 
 
+# --------------------------------------------------------------------------- values at the numeric limit of float64
+
+MAXF = Fraction(1.7976931348623157e308)
+
+
+def _finite(x):
+    try:
+        return math.isfinite(float(x))
+    except (OverflowError, ValueError, TypeError):
+        return False
+
+
+def extreme_points(h, lo, hi):
+    """Query points of a histogram whose values sit at the numeric limit of float64, formed WITHOUT a difference or a sum
+    that can overflow (halves are taken before they are added): both ends, one float inside and outside each, the middle
+    and the quarters of [min, max], zero, every finite centre with its two float neighbours, the middle of every pair of
+    adjacent centres and of each end and its nearest centre."""
+    cents = [float(v) for v, _ in h.bins if _finite(v)]
+    mid = lo / 2 + hi / 2
+    xs = {lo, hi, mid, lo / 2 + mid / 2, mid / 2 + hi / 2, 0.0}
+    for v in [lo, hi] + cents:
+        xs.update([v, math.nextafter(v, math.inf), math.nextafter(v, -math.inf)])
+    for a, b in zip([lo] + cents, cents + [hi]):
+        xs.add(a / 2 + b / 2)
+    return sorted(x for x in xs if math.isfinite(x))
+
+
+def limit_state(h, lo, hi, total):
+    """None when the histogram object is a finite, consistent image of what went in (finite centres strictly increasing
+    inside [min, max], positive counts adding up to the total, the reported bounds the true extremes) - else what is wrong."""
+    if not all(_finite(v) for v, _ in h.bins):
+        return "a bin centre is not a finite number"
+    if not _finite(h.min) or not _finite(h.max):
+        return "a reported bound is not a finite number"
+    if exact(h.min) != lo or exact(h.max) != hi:
+        return "the reported bounds are not the extremes of the inserted values"
+    if sum(int(f) for _, f in h.bins) != total:
+        return "the counts do not add up to the inserted weight"
+    return state_defect("f", h)
+
+
+def extreme_round(D, h, case, res, reg, truth):
+    """One round of queries on a histogram built from values at the numeric limit of float64 (family hseq:limit-*): oracle
+    only - the clauses of the statement on the implementation's answers, judged against the inserted values.  An answer
+    that is NaN or infinite is reported before anything is converted to exact arithmetic.  Returns (bad, left_only)."""
+    lo, hi, total = truth
+    lo_f, hi_f = float(lo), float(hi)
+    xs_f = extreme_points(h, lo_f, hi_f)
+    qs_f = sorted(set(level_points(case.get("levels", 8)) + rank_levels(h) + outside_levels(h) + all_rank_levels(h, 40)))
+    told = {"judged_against": "the inserted values", "reg": reg, "min": lo_f, "max": hi_f, "total": int(total),
+            "bins": [[float(v), int(f)] for v, f in h.bins][:8],
+            "reported": [None if h.min is None else float(h.min), None if h.max is None else float(h.max), int(sum(int(f) for _, f in h.bins))]}
+    import warnings
+
+    try:
+        with warnings.catch_warnings():
+            warnings.simplefilter("ignore")
+            cs_raw = [D.count_at(h, x) for x in xs_f]
+            rs_raw = [D.quantile(h, q) for q in qs_f]
+    except Exception as e:
+        d = {"error": repr(e)[:200]}
+        d.update(told)
+        return ("raised: estimator raised %s" % type(e).__name__, d), False
+    res.branches["limit round: total x (max - min) %s the largest finite float" % ("exceeds" if total * (hi - lo) > MAXF else "is within")] = \
+        res.branches.get("limit round: total x (max - min) %s the largest finite float" % ("exceeds" if total * (hi - lo) > MAXF else "is within"), 0) + 1
+    bad = None
+    for q, r in zip(qs_f, rs_raw):
+        if r is not None and not _finite(r):
+            r = float(r)
+            bad = ("quantile: estimate is not a number" if r != r else "quantile: estimate outside [min, max]", {"q": q, "got": r, "non_finite": True})
+            break
+    if bad is None:
+        for x, r in zip(xs_f, cs_raw):
+            if r is not None and not _finite(r):
+                r = float(r)
+                bad = ("count_at: estimate is not a number" if r != r else "count_at: estimate outside [0, total]", {"x": x, "got": r, "non_finite": True})
+                break
+    left_only = False
+    if bad is None:
+        st = limit_state(h, lo, hi, total)
+        if st is not None and not all(_finite(v) for v, _ in h.bins):
+            bad = ("state: " + st, {})
+    if bad is None:
+        exs = [Fraction(x) for x in xs_f]
+        for x in exs:
+            k = "count_at branch: " + count_branch(h, x, lo, hi)
+            res.branches[k] = res.branches.get(k, 0) + 1
+        for q in qs_f:
+            k = "quantile branch: " + quantile_branch(h, Fraction(q))
+            res.branches[k] = res.branches.get(k, 0) + 1
+        bad_c = check_count_at("f", h, exs, [exact(r) for r in cs_raw], total, lo, hi)
+        bad_q = check_quantile("f", h, [Fraction(q) for q in qs_f], [exact(r) for r in rs_raw], lo, hi)
+        if bad_q is None:
+            bad_q = check_unordered(D, h, res)
+        left_only = bad_c is not None and bool(bad_c[1].get("left_tail")) and bad_q is None
+        bad = bad_q if (bad_c is None or (bad_c[1].get("left_tail") and bad_q is not None)) else bad_c
+        if bad is None and st is not None:
+            bad = ("state: " + st, {})
+    if bad is not None:
+        for k, v in told.items():
+            bad[1].setdefault(k, v)
+        bad[1]["state_ok"] = limit_state(h, lo, hi, total) is None
+    return bad, left_only
+
+
 def run_hist_case(case):
     """Returns Res with .fail (clause, detail) or None, and the model lines + expected values."""
     import numpy  # noqa
@@ -543,6 +648,17 @@ def refused_call(mode, D, h, what, a, b):
 
 
 def run_hseq_case(case):
+    if case.get("extreme"):
+        # values at the numeric limit: numpy announces every overflow on stderr - the answers are judged, the warnings are noise
+        import warnings
+
+        with warnings.catch_warnings():
+            warnings.simplefilter("ignore")
+            return _run_hseq_case(case)
+    return _run_hseq_case(case)
+
+
+def _run_hseq_case(case):
     """A sequence on histogram *objects* (registers name objects; an object can have several names).
 
     `["new", r, cap]`, `["upd", r, v, c]` (plain `update()`), `["add", dst, a, b]` (`dst = a + b`; `a` and `b` keep naming
@@ -671,7 +787,13 @@ def run_hseq_case(case):
                     n_items = len(res.items)
                     tr = t.triple() if t is not None and t.total > 0 else None
                     res.hits.append("hseq: round judged against %s" % ("the inserted values" if tr is not None else "the object's own reports"))
-                    bad, left_only = query_round(mode, D, h, case, res, op[1], tr, every_rank=True, extra_xs=probes.get(id(h), ()))
+                    if case.get("extreme"):
+                        # values at the numeric limit of float64: oracle only, query points formed without overflow
+                        if tr is None:
+                            raise InfraError("a limit history must be judged against the inserted values")
+                        bad, left_only = extreme_round(D, h, case, res, op[1], tr)
+                    else:
+                        bad, left_only = query_round(mode, D, h, case, res, op[1], tr, every_rank=True, extra_xs=probes.get(id(h), ()))
                     if bad is not None:
                         bad[1]["op"] = k
                         if probes.get(id(h)):
@@ -713,7 +835,7 @@ def valid_hseq(c):
             return False
         k = op[0]
         if k == "new":
-            if len(op) != 3 or not all(isinstance(x, int) and not isinstance(x, bool) for x in op[1:]) or not 2 <= op[2] <= 64 or not 0 <= op[1] < 32 or op[1] in regs:
+            if len(op) != 3 or not all(isinstance(x, int) and not isinstance(x, bool) for x in op[1:]) or not (1 if c.get("extreme") else 2) <= op[2] <= 64 or not 0 <= op[1] < 32 or op[1] in regs:
                 return False
             regs.add(op[1])
             alias[op[1]] = n
@@ -781,6 +903,8 @@ def valid_hseq(c):
     for key in ("xs", "qs"):
         if key in c and not all(isinstance(x, (int, float)) and not isinstance(x, bool) and x == x and abs(x) != float("inf") for x in c[key]):
             return False
+    if c.get("extreme") not in (None, True) or (c.get("extreme") and (c["mode"] != "f" or any(op[0] not in ("new", "upd", "q") for op in prog))):
+        return False  # a limit history: plain update() streams in float mode, every round judged against the inserted values
     return True
 
 
@@ -1544,7 +1668,11 @@ def evaluate(ctx, cases):
                     r2 = run_case(c2)
                 except InfraError:
                     return False
-                return r2.fail is not None and _kind(r2.fail[0]) == k0 and r2.fail[0].split(":")[1][:12] == clause.split(":")[1][:12]
+                if r2.fail is None or _kind(r2.fail[0]) != k0 or r2.fail[0].split(":")[1][:12] != clause.split(":")[1][:12]:
+                    return False
+                # never shrink an unexplained failure into an input that only shows an open known finding
+                f2 = {"clause": r2.fail[0], "impl": r2.fail[1], "model": None, "detail": r2.fail[1]}
+                return not any(k.get("status") == "open" and core.match_known(ctx.prop_id, k, c2, f2) for k in ctx.known)
 
             c_min = c if ctx.replaying else shrink(c, still, budget=8 if "gen" in c else ctx.scale(700, 1500) if kind == "hseq" else ctx.scale(400, 800))
             r2 = run_case(c_min)
@@ -2155,6 +2283,60 @@ def hseq_stream_cases(ctx):
     yield as_mode({"kind": "hseq", "mode": "f", "family": "hseq:stream-single", "grid": 4, "levels": 4, "prog": stream_prog(0, 50, [-7.5], [3])})
 
 
+# legal finite values at the numeric limit of float64: magnitudes whose differences, sums and products with a count overflow,
+# the smallest subnormal and the smallest normal number, zero
+LIMIT_VALUES = [1.7e308, -1.7e308, 8.9e307, -8.9e307, 0.0, 5e-324, -5e-324, 2.2e-308, -2.2e-308]
+FLOAT_MAX = 1.7976931348623157e308
+
+
+def limit_case(name, cap, vals, counts=None, q_every=1):
+    return {"kind": "hseq", "mode": "f", "family": "hseq:limit-" + name, "extreme": True, "levels": 8,
+            "prog": stream_prog(0, cap, [float(v) for v in vals], counts, q_every=q_every)}
+
+
+def hseq_limit_cases(ctx):
+    """Histories of plain `update()` over values at the numeric limit of float64 with the smallest bin limits: 2 and 3 (the
+    smallest of C13's quantifier) and 1 (one below it - the constructor takes it and `_trim` then folds everything into one
+    bin, however far apart the values are).  Every history of one and two values over LIMIT_VALUES with counts of 1, 2 and
+    mixed, every history of three values with counts of 1 at the limits 1 and 2, sampled histories of four and five values;
+    named histories: the largest finite float itself, gaps of one unit in the last place, heavy counts whose product with
+    the value overflows.  Judged by the statement's clauses only (`extreme_round`)."""
+    import itertools
+
+    rng = ctx.rng
+    for n in (1, 2):
+        for seq in itertools.product(LIMIT_VALUES, repeat=n):
+            for cap in (1, 2, 3):
+                for counts in (None, [2] * n, [1, 3][:n]):
+                    if n == 1 and counts is not None and cap != 1:
+                        continue
+                    yield limit_case("exhaustive", cap, seq, counts)
+    for seq in itertools.product(LIMIT_VALUES, repeat=3):
+        for cap in (1, 2):
+            yield limit_case("exhaustive", cap, seq, None, q_every=0)
+    for _ in range(ctx.scale(250, 3000)):
+        n = rng.choice([3, 4, 4, 5])
+        seq = [rng.choice(LIMIT_VALUES) for _ in range(n)]
+        counts = None if rng.random() < 0.6 else [rng.choice([1, 1, 2, 3]) for _ in seq]
+        yield limit_case("sampled", rng.choice([1, 2, 2, 3, 3]), seq, counts, q_every=rng.choice([0, 1]))
+    up, dn = lambda v: math.nextafter(v, math.inf), lambda v: math.nextafter(v, -math.inf)
+    named = [
+        ("largest-float", [FLOAT_MAX, -FLOAT_MAX], None), ("largest-float", [-FLOAT_MAX, FLOAT_MAX, 0.0], None),
+        ("largest-float", [FLOAT_MAX, dn(FLOAT_MAX), dn(dn(FLOAT_MAX))], None), ("largest-float", [-FLOAT_MAX, 0.0, 5e-324, FLOAT_MAX], None),
+        ("one-ulp-gaps", [1.0, up(1.0), up(up(1.0))], None), ("one-ulp-gaps", [1e308, up(1e308), dn(1e308)], [1, 2, 1]),
+        ("one-ulp-gaps", [0.0, 5e-324, 1e-323, -5e-324], None), ("one-ulp-gaps", [2.2250738585072014e-308, dn(2.2250738585072014e-308), 0.0], None),
+        ("one-ulp-gaps", [-1.7e308, up(-1.7e308), 1.7e308, dn(1.7e308)], None),
+        ("heavy-counts", [1e300, 1.1e300, -1e300], [10**9, 1, 1]), ("heavy-counts", [-1e300, 1e300, 1.7e308], [10**9, 10**9, 1]),
+        ("heavy-counts", [1e300, 3e300, 2e300], [10**9, 10**9, 10**9]), ("heavy-counts", [-1.7e308, -1.6e308, 1.7e308], [2, 2, 1]),
+        ("heavy-counts", [1e-300, 3e-300, 2e-300], [10**9, 10**9, 10**9]), ("heavy-counts", [5e-324, 0.0, 1e-323], [3, 1, 2**53]),
+    ]
+    for name, vals, counts in named:
+        for cap in (1, 2, 3):
+            yield limit_case(name, cap, vals, counts)
+            if len(vals) > 2:
+                yield limit_case(name, cap, vals[::-1], None if counts is None else counts[::-1])
+
+
 def hseq_exact_hit_cases(ctx):
     """Query, then an update that only **grows an existing bin** (the value is a bin centre: no bin is added, merged or moved),
     then query again — anything an estimator derived from the bins at the first query (running totals, the total, a located
@@ -2412,7 +2594,7 @@ def run(ctx):
             ctx.hit("corpus:fixed-finding-witness")
     evaluate(ctx, [dict(c) for c in BOUNDARY])
     # histogram objects: plain update() streams in every order, judged against the inserted values; operands after a `+`
-    hs = list(hseq_reject_cases(ctx)) + list(hseq_stream_cases(ctx)) + list(hseq_exact_hit_cases(ctx)) + list(hseq_add_cases(ctx)) + list(hseq_bulk_cases(ctx))
+    hs = list(hseq_limit_cases(ctx)) + list(hseq_reject_cases(ctx)) + list(hseq_stream_cases(ctx)) + list(hseq_exact_hit_cases(ctx)) + list(hseq_add_cases(ctx)) + list(hseq_bulk_cases(ctx))
     ctx.note("histogram_object_sequence_cases", len(hs))
     for i in range(0, len(hs), 80):
         if ctx.violations:
@@ -2528,4 +2710,64 @@ def _k01(case, failure):
     return total is None or -tol <= repaired[0] <= float(total) + tol
 
 
-KNOWN_PREDICATES = {"count_at_left_tail_uses_value": _k01}
+def _limit_detail_state_ok(d):
+    """Recomputed from the failure detail: the histogram object is a finite, consistent image of the inserted values."""
+    bins, lo, hi, total, rep = d.get("bins"), d.get("min"), d.get("max"), d.get("total"), d.get("reported")
+    if not isinstance(bins, list) or not bins or len(bins) >= 8 or not all(isinstance(x, (int, float)) for x in (lo, hi, total)):
+        return False
+    if not all(isinstance(b, list) and len(b) == 2 and _finite(b[0]) and isinstance(b[1], int) and b[1] > 0 for b in bins):
+        return False
+    if not (_finite(lo) and _finite(hi)) or rep != [lo, hi, sum(b[1] for b in bins)] or sum(b[1] for b in bins) != total:
+        return False
+    cents = [b[0] for b in bins]
+    return all(a < b for a, b in zip(cents, cents[1:])) and lo <= cents[0] and cents[-1] <= hi
+
+
+def _k02(case, failure):
+    """C14-K02: count_at / quantile form differences and products of centres, bounds and counts in float64; when
+    total x (max - min) exceeds the largest finite float an intermediate overflows and the answer is inf or NaN.  Matches only
+    an answer that IS inf / NaN, given by an estimator of a histogram object that is itself a finite, consistent image of the
+    inserted values (finite increasing centres inside the true [min, max], counts adding up) - a centre that is inf or NaN, a
+    wrong bound, a finite answer out of bounds or out of order is something else - and only in that class of input."""
+    d = failure.get("detail") or {}
+    clause = str(failure.get("clause", ""))
+    if clause not in ("quantile: estimate is not a number", "quantile: estimate outside [min, max]",
+                      "count_at: estimate is not a number", "count_at: estimate outside [0, total]"):
+        return False
+    if not isinstance(case, dict) or case.get("kind") != "hseq" or not case.get("extreme") or not isinstance(d, dict) or d.get("non_finite") is not True:
+        return False
+    got = d.get("got")
+    if not isinstance(got, float) or math.isfinite(got):
+        return False
+    if not _limit_detail_state_ok(d):
+        return False
+    if Fraction(d["total"]) * (Fraction(d["max"]) - Fraction(d["min"])) > MAXF:
+        return True  # a count times a difference of values can overflow
+    # ... or a difference of counts divided by a (subnormal) gap between two centres - the slope of the interior trapezoid
+    cents = [Fraction(b[0]) for b in d["bins"]]
+    return len(cents) > 1 and Fraction(d["total"]) / min(b - a for a, b in zip(cents, cents[1:])) > MAXF
+
+
+def _k03(case, failure):
+    """C14-K03: the merged centre of two bins is (v1*f1 + v2*f2) / (f1 + f2); when both products overflow with opposite signs
+    the sum is inf - inf = NaN, the clamp passes NaN through, and every estimate read off that bin is NaN.  Matches only a
+    histogram with a NaN centre (an infinite centre is something else) in a history whose inserted weight can overflow on
+    both sides: the sum of value x count over the positive values and over the negative values each exceed the largest float."""
+    d = failure.get("detail") or {}
+    if not isinstance(case, dict) or case.get("kind") != "hseq" or not case.get("extreme") or not isinstance(d, dict):
+        return False
+    bins = d.get("bins")
+    if not isinstance(bins, list) or not any(isinstance(b, list) and isinstance(b[0], float) and b[0] != b[0] for b in bins):
+        return False
+    if any(isinstance(b[0], float) and abs(b[0]) == math.inf for b in bins):
+        return False
+    clause = str(failure.get("clause", ""))
+    if not (clause.startswith("state: a bin centre is not a finite number") or clause in ("quantile: estimate is not a number", "count_at: estimate is not a number")):
+        return False
+    upto = d.get("op", len(case["prog"]))
+    pos = sum(Fraction(o[2]) * o[3] for o in case["prog"][: upto + 1] if o[0] == "upd" and o[1] == d.get("reg") and o[2] > 0)
+    neg = sum(-Fraction(o[2]) * o[3] for o in case["prog"][: upto + 1] if o[0] == "upd" and o[1] == d.get("reg") and o[2] < 0)
+    return pos > MAXF and neg > MAXF
+
+
+KNOWN_PREDICATES = {"count_at_left_tail_uses_value": _k01, "estimator_overflow_at_float_limit": _k02, "merged_centre_nan_when_products_overflow": _k03}
